@@ -180,6 +180,56 @@ def shared_name_probes(ctx, count):
 
 
 # ---------------------------------------------------------------------------
+# a reference IMAGE used twice, re-aligned in between
+# ---------------------------------------------------------------------------
+def reused_reference_image_probes(ctx, count):
+    """The reference may be a WCSCorrector with an x,y catalog: its sky positions are those its WCS gives NOW.
+    Sequence: B is aligned to the reference image A; A itself is then aligned to the true sky; C is aligned to A.
+    C must land on the true sky (A's current frame), not on the positions A's WCS gave before its own alignment."""
+    from astropy.table import Table
+    from tweakwcs import align_wcs, XYXYMatch
+    rng = ctx.rng
+    for it in range(count):
+        seed = rng.getrandbits(32)
+        scene = alignsim.Scene(np.random.default_rng(seed))
+        errs = [(rng.uniform(-3, 3), rng.uniform(-3, 3)) for _ in range(3)]
+        a, ida = scene.make_image(0, (0, 0), 'good', None, err=errs[0], name='A')
+        b, idb = scene.make_image(1, (300, 100), 'good', None, err=errs[1], name='B')
+        c, idc = scene.make_image(2, (100, 350), 'good', None, err=errs[2], name='C')
+        case = {'op': 'reused-reference-image', 'scene_seed': seed, 'errs': [list(e) for e in errs]}
+        ctx.case(case, nontrivial=True, branch='align:reused-reference-image')
+        m = lambda: XYXYMatch(searchrad=6, separation=0.5, tolerance=2.0)   # noqa
+        try:
+            align_wcs([b], refcat=a, match=m(), fitgeom='shift')
+            sky = scene.sky_of(scene.inside((0, 0), margin=-300))
+            align_wcs([a], refcat=Table([sky[:, 0], sky[:, 1]], names=('RA', 'DEC')), match=m(), fitgeom='shift')
+            out = align_wcs([c], refcat=a, match=m(), fitgeom='shift')
+        except Exception as e:   # noqa
+            ctx.oracle_fail(case, {'what': 'align_wcs raised', 'exception': '%s: %s' % (type(e).__name__, str(e)[:100])})
+            continue
+        st = [x.meta.get('fit_info', {}).get('status') for x in (a, b, c)]
+        if st != ['SUCCESS'] * 3:
+            ctx.branch('reused-reference-image:not-all-success-skipped')
+            continue
+        truth = scene.sky_of(idc)
+        got = alignsim.catalog_sky(c)
+        d = float(np.max(sky_sep_px(got, truth))) if len(idc) else 0.0
+        if d > AGREE_TOL_PX * 5:
+            ctx.oracle_fail(case, {'what': 'an image aligned to a reference IMAGE that had been re-aligned in between '
+                                           'does not agree with the current sky positions of that reference image',
+                                   'disagreement_px': d})
+        # the returned catalog lists the reference image's sources at its CURRENT sky positions
+        ra = np.asarray(out['RA'], dtype=float)
+        dec = np.asarray(out['DEC'], dtype=float)
+        ta = scene.sky_of(ida)
+        if len(ra) >= len(ida) and len(ida):
+            d2 = float(np.max(sky_sep_px(np.array([ra[:len(ida)], dec[:len(ida)]]).T, ta)))
+            if d2 > AGREE_TOL_PX * 5:
+                ctx.oracle_fail(case, {'what': 'the returned reference catalog does not list the sources of the reference '
+                                               'image at the positions its current WCS gives', 'disagreement_px': d2})
+
+
+# ---------------------------------------------------------------------------
 # oracle
 # ---------------------------------------------------------------------------
 def sky_sep_px(a, b):
@@ -423,6 +473,7 @@ def run(ctx):
     if not ctx.search_only:
         regression_probes(ctx, lines, pending)
     shared_name_probes(ctx, ctx.n(4, 40))
+    reused_reference_image_probes(ctx, ctx.n(3, 30))
     # the five-image scenario family of the design-phase experiment e5 (failing image in the middle)
     for enforce in (True, False):
         for junkpos in (0, 1, 2):
